@@ -23,6 +23,9 @@ BASE_ATTRS = [
     S.attr("g", S.TL(S.TINT), item="g_item"),
     S.attr("m", S.TL(S.TU("Leaf")), "factory", L(), item="m_item"),
     S.attr("kl", S.TKL(S.TU("KLeaf"), S.TSTR), "factory", S.KL(), item="kl_item"),
+    # dictionaries whose VALUES are mutable (a copy of the dictionary alone is not enough)
+    S.attr("dd", S.TD(S.TSTR, S.TU("Leaf")), "lit", D_((S.S("z"), LF(0))), item="dd_item"),
+    S.attr("dl", S.TD(S.TSTR, S.TL(S.TINT)), "factory", D_(), item="dl_item"),
 ]
 KLEAF = S.cls([S.attr("k", S.TSTR), S.attr("ws", S.TL(S.TINT), "lit", L(), item="w")], key="k")
 
@@ -70,9 +73,11 @@ POKES = {
     "a": lambda o: o.a.append(9), "b": lambda o: o.b.__setitem__("z", 9), "c": lambda o: o.c.add(9), "d": lambda o: o.d.append(9),
     "e.v": lambda o: setattr(o.e, "v", (o.e.v + 1) % 3), "e.ws": lambda o: o.e.ws.append(9), "g": lambda o: o.g.append(9), "h": lambda o: o.h.append(9),
     "m.0": lambda o: setattr(o.m[0], "v", (o.m[0].v + 1) % 3), "m.0.ws": lambda o: o.m[0].ws.append(9), "kl.0": lambda o: o.kl[0].ws.append(9),
+    "dd.z": lambda o: o.dd["z"].ws.append(9), "dd.z.v": lambda o: setattr(o.dd["z"], "v", (o.dd["z"].v + 1) % 3), "dl.q": lambda o: o.dl["q"].append(9),
     "e.with": lambda o: o.with_e(v=2, _inplace=True), "a.item": lambda o: o.with_a_item(5, _inplace=True), "b.item": lambda o: o.with_b_item("q", 1, _inplace=True),
 }
-ARG_POOL = {"a": [L(I(4), I(4))], "b": [D_((S.S("m"), I(2)))], "c": [SET(I(1))], "d": [L(I(6))], "e": [LF(1, 3)], "g": [L(), L(I(8))], "h": [L(I(0))],
+ARG_POOL = {"dd": [D_((S.S("z"), LF(1, 1))), D_((S.S("z"), LF(0)), (S.S("y"), LF(2)))], "dl": [D_((S.S("q"), L(I(1)))), D_((S.S("q"), L()))],
+            "a": [L(I(4), I(4))], "b": [D_((S.S("m"), I(2)))], "c": [SET(I(1))], "d": [L(I(6))], "e": [LF(1, 3)], "g": [L(), L(I(8))], "h": [L(I(0))],
             "m": [S.TUP(LF(1)), L(LF(2, 2)), S.TUP(LF(0), LF(1, 1))], "kl": [L(KLF("a")), S.KL(KLF("b", 1)), S.TUP(KLF("a", 3), KLF("c"))]}
 
 
